@@ -16,8 +16,10 @@ def gen_single_root(rng: random.Random, max_groups: int = 4, multi_cfw: bool = T
     root_cfw = rng.choice(CFWS if multi_cfw else ["PyArrowTable"])
     cols = {c: [rng.randrange(-5, 20) for _ in range(n_rows)] for c in ["a", "b", "c"][: rng.randrange(1, 4)]}
     groups: List[Dict[str, Any]] = [{"name": "R0", "kind": "root", "cfw": root_cfw, "cols": cols}]
-    # objects: {"cfw", "cols": visible columns, "children": {cfw: object index}}
-    objs: List[Dict[str, Any]] = [{"cfw": root_cfw, "cols": list(cols), "children": {}}]
+    # objects form a tree; home = features computed in place on the object (root columns for the root object).
+    # A group computing on object T may use home(T) and home(parent(T)) (one transform copies the parent's columns);
+    # anything further away would need a second transform into a different object, i.e. a merge (outside Stage A).
+    objs: List[Dict[str, Any]] = [{"cfw": root_cfw, "home": list(cols), "parent": None, "children": {}}]
     n_groups = rng.randrange(1, max_groups + 1)
     fid = 0
     derived: List[str] = []
@@ -29,11 +31,13 @@ def gen_single_root(rng: random.Random, max_groups: int = 4, multi_cfw: bool = T
         elif cfw in objs[src]["children"]:
             tgt = objs[src]["children"][cfw]
         else:
-            objs.append({"cfw": cfw, "cols": [], "children": {}})
+            objs.append({"cfw": cfw, "home": [], "parent": src, "children": {}})
             tgt = len(objs) - 1
             objs[src]["children"][cfw] = tgt
-        visible = list(objs[src]["cols"]) if tgt != src else []
-        visible += [c for c in objs[tgt]["cols"] if c not in visible]
+        visible = list(objs[tgt]["home"])
+        par = objs[tgt]["parent"]
+        if par is not None:
+            visible += [c for c in objs[par]["home"] if c not in visible]
         feats: Dict[str, Any] = {}
         for _ in range(rng.randrange(1, 4)):
             fid += 1
@@ -43,8 +47,7 @@ def gen_single_root(rng: random.Random, max_groups: int = 4, multi_cfw: bool = T
             ins = rng.sample(pool, k)
             feats[name] = {"inputs": ins, "c0": rng.randrange(-3, 4), "coefs": [rng.choice([1, 1, 2, -1, 3]) for _ in ins]}
         groups.append({"name": f"D{gi}", "kind": "derived", "cfw": cfw, "features": feats})
-        # columns now visible on the target object: what it received from the source plus the new features
-        objs[tgt]["cols"] = [c for c in visible if c not in feats] + list(feats)
+        objs[tgt]["home"] += list(feats)
         derived += list(feats)
     req = rng.sample(derived, rng.randrange(1, min(3, len(derived)) + 1))
     if rng.random() < 0.3:
@@ -58,7 +61,7 @@ def gen_two_roots_inner(rng: random.Random) -> Dict[str, Any]:
     n = 3
     groups: List[Dict[str, Any]] = [
         {"name": "R0", "kind": "root", "cfw": cf[0], "cols": {"a": [rng.randrange(0, 9) for _ in range(n)], "k": [1, 2, 3]}},
-        {"name": "R1", "kind": "root", "cfw": cf[1], "cols": {"b": [rng.randrange(0, 9) for _ in range(n)], "j": [1, 2, 3]}},
+        {"name": "R1", "kind": "root", "cfw": cf[1], "cols": {"b": [rng.randrange(0, 9) for _ in range(n)], "k": [1, 2, 3]}},
     ]
     ccfw = rng.choice(cf)
     feats = {"f1": {"inputs": ["a", "b"], "c0": 0, "coefs": [1, rng.choice([1, 2])]}}
@@ -66,4 +69,4 @@ def gen_two_roots_inner(rng: random.Random) -> Dict[str, Any]:
         feats["f2"] = {"inputs": ["f1"], "c0": 1, "coefs": [1]}
     groups.append({"name": "D1", "kind": "derived", "cfw": ccfw, "features": feats})
     return {"groups": groups, "request": [rng.choice(list(feats))],
-            "links": [{"jt": "INNER", "l": "R0", "r": "R1", "li": ["k"], "ri": ["j"]}]}
+            "links": [{"jt": "INNER", "l": "R0", "r": "R1", "li": ["k"], "ri": ["k"]}]}
